@@ -2,6 +2,7 @@ package mc
 
 import (
 	"fmt"
+	"sort"
 	"strings"
 	"time"
 
@@ -118,6 +119,10 @@ func (monC11) AtState(x *Exec) {}
 
 func (monC11) AtEnd(x *Exec) {
 	sc := x.Sc
+	if _, ok := x.Mem["crashState"]; ok {
+		monC11Crash(x)
+		return
+	}
 	if len(sc.BootStates) == 0 {
 		return
 	}
@@ -193,6 +198,133 @@ func (monC11) AtEnd(x *Exec) {
 	}
 }
 
+// monC11Crash: the store is a crash state of a real execution (every durable prefix of every explored schedule), the
+// restart happens CrashAgeSec+1 s after the crash instant. The verdict live/stale is only asserted when it does not
+// depend on how "most recent recorded activity" is read: stale when even the crash instant is older than the maximum,
+// live when the latest state timestamp in the stored plan is younger.
+func monC11Crash(x *Exec) {
+	sc := x.Sc
+	h := NewHist(x, -1)
+	maxAge := 30 * 60
+	if sc.MaxLastUpdateSec > 0 {
+		maxAge = sc.MaxLastUpdateSec
+	}
+	cs, _ := x.Mem["crashState"].(*CrashState)
+	restart, _ := x.Mem["restartAt"].(time.Time)
+	for pi := range sc.Plans {
+		planPath := fmt.Sprintf("P%d", pi)
+		bv, _ := x.Mem[fmt.Sprintf("crashView:%d", pi)].(*PlanView)
+		if bv == nil || bv.Objs[planPath] == nil {
+			continue
+		}
+		before := fullDigest(bv)
+		p, err := x.ReadPlan(pi)
+		if err != nil {
+			x.Report(&Violation{Property: "C11", Rule: "plan-unreadable", Signature: "crash", Msg: err.Error()})
+			continue
+		}
+		v := View(p)
+		after := fullDigest(v)
+		var invs []string
+		for path, cs := range h.Calls {
+			for _, c := range cs {
+				if strings.HasPrefix(path, planPath+"/") && c.Gen == x.W.Gen {
+					invs = append(invs, path)
+					break
+				}
+			}
+		}
+		sort.Strings(invs)
+		st := bv.Objs[planPath].Status
+		var latest time.Time
+		for _, o := range bv.Objs {
+			for _, t := range []time.Time{o.Start, o.End} {
+				if t.After(latest) {
+					latest = t
+				}
+			}
+		}
+		sinceCrash := int64(sc.CrashAgeSec) + 1
+		rep := func(rule, format string, a ...any) {
+			x.Report(&Violation{Property: "C11", Rule: rule, Signature: fmt.Sprintf("crash-state/%s", st),
+				Msg: fmt.Sprintf("%s (stored %s at the crash after %d durable writes; restart %d s after the crash, max %d s): ", planPath, st, cs.K, sinceCrash, maxAge) + fmt.Sprintf(format, a...)})
+		}
+		switch {
+		case st != workflow.Running:
+			if len(invs) > 0 {
+				rep("plan-not-to-be-resumed-was-executed", "invoked %v", invs)
+			}
+			if after != before {
+				rep("plan-not-to-be-resumed-was-modified", "%s", firstDiff(before, after))
+			}
+		case sinceCrash > int64(maxAge):
+			if len(invs) > 0 {
+				rep("stale-plan-executed", "invoked %v", invs)
+			}
+			ps := v.Objs[planPath]
+			if ps.Status != workflow.Failed || ps.Reason != workflow.FRExceedRecovery {
+				rep("stale-plan-not-closed", "the plan is stored %s with reason %s, want Failed/ExceedRecovery", ps.Status, ps.Reason)
+			}
+			for _, path := range v.Order {
+				if v.Objs[path].Status == workflow.Running {
+					rep("stale-plan-left-running-objects", "%s is still stored Running (it was %s at the crash)", path, bv.Objs[path].Status)
+					break
+				}
+			}
+			// closing must not invent progress: what was finished or never started stays what it was
+			for _, path := range v.Order {
+				b, a := bv.Objs[path], v.Objs[path]
+				if b != nil && a != nil && b.Status != workflow.Running && b.Status != a.Status {
+					rep("stale-plan-closure-changed-finished-object", "%s was %s at the crash and is %s after the closure", path, b.Status, a.Status)
+					break
+				}
+			}
+		case !latest.IsZero() && !restart.IsZero() && restart.Sub(latest) < time.Duration(maxAge)*time.Second:
+			if x.Outcome != "done" {
+				rep("live-plan-not-driven-to-the-end", "outcome %s", x.Outcome)
+				continue
+			}
+			ps := v.Objs[planPath]
+			if !terminal(ps.Status) {
+				rep("live-plan-not-resumed", "the plan is stored %s", ps.Status)
+			}
+			if ps.Reason == workflow.FRExceedRecovery {
+				rep("live-plan-closed-as-stale", "closed with ExceedRecovery although its latest state timestamp is %v old", restart.Sub(latest))
+			}
+		}
+	}
+}
+
+// agedCrashScenarios: crash scenarios restarted beyond (aged) and within (live) a 10 s maximum.
+func agedCrashScenarios(tier string) []*Scenario {
+	var out []*Scenario
+	for _, sc := range FamilyCrash(tier) {
+		n := sc.Name
+		pick := strings.HasPrefix(n, "crash-b2-n2-a2-c2-t1-") || strings.HasPrefix(n, "crash-b1-n2-a2-c2-t1-") || strings.HasPrefix(n, "crash-chk-") || strings.HasPrefix(n, "crash-2fail-t1-c2") ||
+			n == "crash-all-groups" || n == "crash-seq-fails-def" || n == "crash-retry-ok-r1"
+		if tier == "thorough" {
+			pick = true
+		}
+		if !pick {
+			continue
+		}
+		for _, v := range []struct {
+			suffix string
+			age    int
+		}{{"-aged", 15}, {"-live", 3}} {
+			if v.suffix == "-live" && tier != "thorough" && !strings.HasPrefix(n, "crash-b2-n2-a2-c2-t1-") {
+				continue
+			}
+			c := cloneScenario(sc)
+			c.Name += v.suffix
+			c.CrashAgeSec = v.age
+			c.MaxLastUpdateSec = 10
+			out = append(out, c)
+		}
+	}
+	return out
+}
+
 // FamilyBoot: store mixes.
 func FamilyBoot(tier string) []*Scenario {
 	var out []*Scenario
@@ -265,6 +397,7 @@ func init() {
 		Level: "model_checking",
 		Rule: "family F-boot: every multiset of 1-2 (3) plans over {never started, Running, Completed, Failed} in one real sqlite store (Running plans hold a finished and an in-flight sequence), last recorded activity at max-1 s, max and max+1 s before start-up on the FAKE clock " +
 			"(exact boundary) for WithMaxLastUpdate in {10 s, default 30 min}, recovery on and off; the store is read before coercion.New and after the engine has run to the end (every order of visible operations within the deviation bound); " +
+			"plus the crash layer: every durable state (prefix of the storage writes of every explored schedule) of crash scenarios with concurrent sequences, failing sequences, every check group and retries is restarted 16 s (stale, max 10 s) and 4 s (live) after the crash; " +
 			"distinct_nontrivial = distinct states in which two or more logical threads were enabled",
 		Assumptions: []string{"64-runner pool, I/O granularity", "'older than the configured maximum' is strict: a plan whose last activity is exactly max old is still live", "Running plans are synthesised through the public Update* API"},
 		NewMon:      func(sc *Scenario) Monitor { return monC11{} },
@@ -277,6 +410,9 @@ func init() {
 			for _, sc := range FamilyBoot(tier) {
 				items = append(items, explore("C11", sc, b, true))
 			}
+			// the Running plans found in a store after a real crash: every durable state of the crash scenarios, restarted
+			// beyond and within the maximum
+			items = append(items, crashItems("C11", tier, agedCrashScenarios(tier))...)
 			return items
 		},
 	})
